@@ -25,7 +25,7 @@ def emittedValues (u : URL) (env : StringEnv) : GoMap (List GoString) :=
       (fieldsName t, [joinWith [44] (Typ.sortStrings ((u.params.fields.get? t).getD []))])) ++
   (match u.params.filter with
     | some f => [(sFilter, [f])]
-    | none => if u.params.filterLabel ≠ [] then [(sFilter, [env.labelBody])] else []) ++
+    | none => if u.params.filterLabel ≠ [] then [(sFilter, [rewriteBrace env.labelBody])] else []) ++
   (if u.isCol then (Typ.sortStrings u.params.page.keys).map (fun k =>
       (pageName k, [((u.params.page.get? k).map PageVal.text).getD []])) else []) ++
   (if u.params.sortingRules.isEmpty then [] else [(sSort, [joinWith [44] u.params.sortingRules])])
@@ -34,7 +34,7 @@ def emittedValues (u : URL) (env : StringEnv) : GoMap (List GoString) :=
 def emittedFilterValue (u : URL) (env : StringEnv) : GoString :=
   match u.params.filter with
   | some f => f
-  | none => if u.params.filterLabel ≠ [] then env.labelBody else []
+  | none => if u.params.filterLabel ≠ [] then rewriteBrace env.labelBody else []
 
 end Jsonapi.Spec
 
@@ -43,5 +43,38 @@ namespace Jsonapi
 /-- Exclusion of the known defect: `String()` of a URL whose field selection for some
 type is empty (a type without any field) does not parse back. -/
 def NoEmptySelection (u : URL) : Prop := ∀ t fs, u.params.fields.get? t = some fs → fs ≠ []
+
+/-! ### `rewriteBrace` (url.go: a leading `{` of the label body is written backslash-u-0-0-7-b) -/
+
+/-- the rewritten body never starts with `{` -/
+theorem rewriteBrace_head (b : GoString) : (rewriteBrace b).head? ≠ some 123 := by
+  unfold rewriteBrace
+  split
+  · simp
+  · rename_i h
+    cases b with
+    | nil => simp
+    | cons c t =>
+      intro hc
+      simp only [List.head?_cons, Option.some.injEq] at hc
+      exact h t (by rw [hc])
+
+/-- a non-empty body stays non-empty -/
+theorem rewriteBrace_ne_nil (b : GoString) (h : b ≠ []) : rewriteBrace b ≠ [] := by
+  unfold rewriteBrace
+  split
+  · simp
+  · exact h
+
+/-- a body that does not start with `{` is left alone -/
+theorem rewriteBrace_of_head (b : GoString) (h : b.head? ≠ some 123) : rewriteBrace b = b := by
+  unfold rewriteBrace
+  split
+  · simp at h
+  · rfl
+
+/-- a body that starts with `{`: the first byte becomes the six bytes of the escape -/
+theorem rewriteBrace_brace (t : GoString) :
+    rewriteBrace (123 :: t) = [92, 117, 48, 48, 55, 98] ++ t := rfl
 
 end Jsonapi
